@@ -24,11 +24,17 @@ class MirDB:
         self.by_method = {}
         self.closures_by_span = {}
         self.meta = {}
+        self.consts = {}
+        self.consts_by_last = {}
 
     def load(self, path, crate):
         fns = parse_file(path)
         for f in fns:
             f.span_file = crate
+            if f.promoted == 'const':
+                self.consts.setdefault(f.name, []).append(f)
+                self.consts_by_last.setdefault(f.name.split('::')[-1], []).append(f)
+                continue
             self.fns.append(f)
             self.by_name.setdefault(f.name, []).append(f)
             info = self._info(f)
@@ -164,6 +170,30 @@ class MirDB:
                 pass
         if len(cands) == 1:
             return cands[0]
+        return None
+
+    def const_body(self, text, caller_fn=None):
+        """body fn of a named / promoted constant referenced as `const <text>`"""
+        t = text.strip()
+        c = self.consts.get(t)
+        if c and len(c) == 1:
+            return c[0]
+        pm = re.search(r'::(promoted\[\d+\])$', t)
+        if pm and caller_fn is not None:
+            c = self.consts.get(caller_fn.name + '::' + pm.group(1))
+            if c and len(c) == 1:
+                return c[0]
+            return None
+        last = t.split('::')[-1]
+        cands = self.consts_by_last.get(last, [])
+        ex = [f for f in cands if t.endswith(f.name) or f.name.endswith(t)]
+        if len(ex) == 1:
+            return ex[0]
+        if len(ex) > 1 and caller_fn is not None:
+            # promoted[k] of the calling function
+            ex2 = [f for f in ex if f.name.startswith(caller_fn.name)]
+            if len(ex2) == 1:
+                return ex2[0]
         return None
 
     def closure_fn(self, agg_name):
